@@ -4,7 +4,7 @@
    [canon] sorts every level by the derived Ord of the info structs (Quill/Mappings.v),
    [wf] / [textual] are the decidable hypotheses (Quill/Mappings.v, C03/Model.v). *)
 From FB Require Import C03.Model C03.ModelBytes C03.SrcGen C03.Theory1 C03.Theory2 C03.Theory3 C03.Theory5 C03.Theory6 C03.Theory7
-  C03.Theory8 C03.Theory9 C03.Theory10 C03.Theory11 C03.Theory12 C03.Theory13.
+  C03.Theory8 C03.Theory9 C03.Theory10 C03.Theory11 C03.Theory12 C03.Theory13 C03.Theory14 C03.Theory15.
 
 (* Th 1 — round trip: a well-formed textual mapping set can be written, and reading the text
    back yields its canonical representative *)
@@ -305,3 +305,104 @@ Print Assumptions C03_example.
 Theorem C03_example_rust_strings : rust_strings ex_mappings = true.
 Proof. exact ex_rust_strings. Qed.
 Print Assumptions C03_example_rust_strings.
+
+(* ------------------------------------------------------------------------------------------ *)
+(* round 5 *)
+
+(* Th 11 — the round trip without [textual].  [textual] is a condition on the strings (no TAB / LF / final
+   CR in a namespace, name or descriptor; no unpaired surrogate in a name or descriptor) together with what
+   the types of a quill tree guarantee anyway ([typed]: every name passed its check_valid, indices are
+   usize).  The writer checks the strings itself (check_fields, repairs of round 5; for a surrogate in a
+   name it is Display that fails), so the string part is exactly "the writer writes the set": *)
+Theorem C03_textual_split : forall M, textual M = typed M && writable M.
+Proof. exact textual_split. Qed.
+Print Assumptions C03_textual_split.
+
+Theorem C03_write_ok_iff : forall M t, write M = Ok t <-> writable M = true /\ t = unlines (write_lines M).
+Proof. exact write_ok_iff. Qed.
+Print Assumptions C03_write_ok_iff.
+
+(* for EVERY well-formed set of the types: if it is written at all, the text reads back to its canonical
+   representative and is a fixed point; otherwise it is refused — nothing is written that does not read back *)
+Theorem C03_read_write_typed : forall M t,
+  wf M = true -> typed M = true -> write M = Ok t -> read (length (ms_ns M)) t = Ok (canon M).
+Proof. exact read_write_typed. Qed.
+Print Assumptions C03_read_write_typed.
+
+Theorem C03_refused_or_round_trip : forall M,
+  wf M = true -> typed M = true ->
+  (write M = Err /\ writable M = false)
+  \/ (exists t, write M = Ok t /\ read (length (ms_ns M)) t = Ok (canon M)).
+Proof. exact refused_or_round_trip. Qed.
+Print Assumptions C03_refused_or_round_trip.
+
+Theorem C03_write_read_write_typed : forall M t,
+  wf M = true -> typed M = true -> write M = Ok t ->
+  exists M', read (length (ms_ns M)) t = Ok M' /\ write M' = Ok t.
+Proof. exact write_read_write_typed. Qed.
+Print Assumptions C03_write_read_write_typed.
+
+(* two sets are written as the same text only if they are the same content: no two names, descriptors or
+   comments are ever collapsed (in particular not an unpaired surrogate with U+FFFD) *)
+Theorem C03_write_injective : forall M M' t,
+  wf M = true -> typed M = true -> wf M' = true -> typed M' = true ->
+  write M = Ok t -> write M' = Ok t -> canon M = canon M'.
+Proof. exact write_injective. Qed.
+Print Assumptions C03_write_injective.
+
+(* what is refused, exactly: [name_cells] / [desc_cells] are all names (every namespace column, every level)
+   and all descriptors of the set *)
+Theorem C03_writable_cells : forall M,
+  writable M = forallb cell_ok (ms_ns M ++ name_cells M ++ desc_cells M)
+               && forallb scalar_only (name_cells M ++ desc_cells M).
+Proof. exact writable_cells. Qed.
+Print Assumptions C03_writable_cells.
+
+Theorem C03_write_refuses_separator : forall M s,
+  In s (ms_ns M ++ name_cells M ++ desc_cells M) ->
+  (In cTAB s \/ In cLF s \/ exists s', s = s' ++ [cCR]) -> write M = Err.
+Proof. exact write_refuses_separator. Qed.
+Print Assumptions C03_write_refuses_separator.
+
+Theorem C03_write_refuses_surrogate : forall M s c,
+  In s (name_cells M ++ desc_cells M) -> In c s -> is_scalar c = false -> write M = Err.
+Proof. exact write_refuses_surrogate. Qed.
+Print Assumptions C03_write_refuses_surrogate.
+
+Theorem C03_write_refuses_only : forall M, write M = Err ->
+  (exists s, In s (ms_ns M ++ name_cells M ++ desc_cells M) /\ (In cTAB s \/ In cLF s \/ exists s', s = s' ++ [cCR]))
+  \/ (exists s c, In s (name_cells M ++ desc_cells M) /\ In c s /\ is_scalar c = false).
+Proof. exact write_refuses_only. Qed.
+Print Assumptions C03_write_refuses_only.
+
+(* the characters check_field refuses, that check_desc needs a str and that write checks before it writes
+   are read from the source on every run (C03/SrcGen.v) *)
+Theorem C03_check_field_from_source :
+  (forall s, cell_ok s = cell_ok_tbl check_field_contains check_field_ends_with s)
+  /\ check_desc_needs_str = true /\ write_checks_first = true.
+Proof. exact check_field_from_source. Qed.
+Print Assumptions C03_check_field_from_source.
+
+(* non-vacuity: well-formed typed sets outside [textual] (TAB in a class name, a whole injected line in a
+   parameter name, CR at the end of a descriptor, a surrogate in a name and in a descriptor) are refused; a
+   set with CR / NUL / NEL / backslash-n INSIDE a name is written and read back; the descriptors L<D800>; and
+   L<FFFD>; that used to be written as the same text *)
+Theorem C03_refusal_examples : refusal_examples.
+Proof. exact refusal_examples_hold. Qed.
+Print Assumptions C03_refusal_examples.
+
+(* Th 12 — what the reader returns is a set of the types (every name passed its check_valid, every index is a
+   usize), so Th 11 applies to every set that came from a file: it is refused or survives the round trip *)
+Theorem C03_read_ok_typed : forall n t M, read n t = Ok M -> typed M = true.
+Proof. exact read_ok_typed. Qed.
+Print Assumptions C03_read_ok_typed.
+
+Theorem C03_read_then_write : forall n t M, read n t = Ok M ->
+  (write M = Err /\ writable M = false)
+  \/ (exists t', write M = Ok t' /\ read n t' = Ok (canon M)).
+Proof. exact read_then_write. Qed.
+Print Assumptions C03_read_then_write.
+
+Theorem C03_read_refused_example : read_refused_example.
+Proof. exact read_refused_example_holds. Qed.
+Print Assumptions C03_read_refused_example.
